@@ -76,6 +76,7 @@ func pathSet(m map[string][]ssa.Instruction) string {
 }
 
 func rulesC17(c *Ctx) {
+	c17Round5(c)
 	c.Explain = append(c.Explain,
 		"C17 (registry authority and key uniqueness) — decided: (a) the set of node sub-keys is the same at every place it matters: checked for uniqueness (VerifyRegisterNodeArgs), required to have signed the descriptor (each IsSignedBy true + IsOnlySignedBy), indexed on SetNode, un-indexed for the replaced descriptor on SetNode, and un-indexed on RemoveNode; SetNode and RemoveNode handle the same key formats; in SetNode every removal of an old key index entry precedes every insertion of a new one (so a node exchanging keys among its own slots cannot clobber a fresh entry); the duplicate-key rejection fires exactly when another node owns the key; (b) every registry state write in the transaction handlers is dominated by the signer-equals-owner comparison (or InitChain); (c) the previous owner's stake claim is removed exactly when the staking address changes; entity records and their stake claim are added/removed together; (d) RemoveEntity is dominated by the has-nodes and has-runtimes guards.",
 		"NOT decided: index consistency over arbitrary histories beyond the ordering/agreement clauses, claim thresholds, expiry handling.")
@@ -154,7 +155,7 @@ func rulesC17(c *Ctx) {
 		// open + entity membership
 		open := CallsTo(fn, "sigNode.Open", "common/node.(*MultiSignedNode).Open", "")
 		c.successOnlyVia("C17.keys", fn, open, "the descriptor's signatures must verify")
-		c.SuccessRequiresCond("C17.keys", fn, "entity.HasNode(n.ID) (unless sanity check)", `common/entity\.\(\*Entity\)\.HasNode\(param:entity,.*node\.Node\.ID\)$|^param:isSanityCheck$`, "a node registers only if its entity lists it")
+		c.SuccessRequiresCond("C17.keys", fn, "entity.HasNode(n.ID) (unless sanity check)", `^common/entity\.\(\*Entity\)\.HasNode\(param:entity,.*node\.Node\.ID\)$|^param:isSanityCheck$`, "a node registers only if its entity lists it")
 		// duplicate-key guard: exactly (other node owns the key)
 		blocks := errorfReturnBlocks(fn, `duplicate node`)
 		if len(blocks) != 1 {
